@@ -163,7 +163,8 @@ def edgeOK (tyAt : Id → Option MTy) (fnTy : Id → Option MTy) : AstOp → Boo
     | some (.object fs) => (fs.toList.find? (·.1 == key)).map (·.2) == some ty
     | _ => false
   | .function _ _ child ty => tyAt child == some ty
-  | .random _ | .input .. | .literal .. | .argRef .. => true
+  | .random ty => (scalarOf ty).any STy.isSec          -- `T.random()` exists for the secret classes only
+  | .input .. | .literal .. | .argRef .. => true
 
 def tyAtS (s : St) (c : Id) : Option MTy := (s.lookup c).map (·.ty)
 def fnTyS (s : St) (f : Id) : Option MTy :=
